@@ -115,6 +115,8 @@ func (ctx *Ctx) Set(key string, val any, ins inspector.Inspector) *Ctx {
 			// Update existing variable.
 			ctx.vars[i].val = val
 			ctx.vars[i].ins = ins
+			ctx.vars[i].buf = ctx.vars[i].buf[:0]
+			ctx.vars[i].cntrF = false
 			return ctx
 		}
 	}
@@ -162,6 +164,8 @@ func (ctx *Ctx) SetBytes(key string, val []byte) *Ctx {
 		if ctx.vars[i].key == key {
 			ctx.vars[i].buf = append(ctx.vars[i].buf[:0], val...)
 			ctx.vars[i].ins = ins
+			ctx.vars[i].val = nil
+			ctx.vars[i].cntrF = false
 			return ctx
 		}
 	}
